@@ -662,10 +662,14 @@ func (m *Manager) publishBlockInternal(ctx context.Context) error {
 				return nil
 			}
 		} else {
-			if batchData.Before(lastHeaderTime) {
-				return fmt.Errorf("timestamp is not monotonically increasing: %s < %s", batchData.Time, m.getLastBlockTime())
-			}
 			m.logger.Info("creating and publishing block", "height", newHeight, "num_tx", len(batchData.Transactions))
+		}
+
+		// Applies to empty blocks as well: a block that is saved below and then
+		// fails validation because of its timestamp would be picked up again as
+		// the pending block on every later attempt.
+		if batchData.Before(lastHeaderTime) {
+			return fmt.Errorf("timestamp is not monotonically increasing: %s < %s", batchData.Time, m.getLastBlockTime())
 		}
 
 		header, data, err = m.createBlock(ctx, newHeight, lastSignature, lastHeaderHash, batchData)
